@@ -1,6 +1,8 @@
 SPECIFICATION Spec
 CONSTANTS
   MaxLen = 6
+  MinFns = 1
+  MaxFns = 1
   MaxDepth = 4
   TokenKinds = {"S", "G", "LP", "L", "O", "C", "I", "E"}
   ElseFlagCleared = FALSE
